@@ -583,7 +583,7 @@ func (fr *Frame) runDefers(st *State, reach string) {
 		before := st.clone()
 		resT := d.cc.Signature().Results()
 		if _, isBuiltin := d.cc.Value.(*ssa.Builtin); !isBuiltin {
-			fr.countCall(fr.callName(d.cc, d.instr.Pos()), st) // a deferred call counts when it runs
+			fr.countCall(fr.callName(d.cc, d.cc.Pos()), st) // a deferred call counts when it runs
 			fr.countCall(fr.callQualName(d.cc.Pos()), st)
 		}
 		if d.cc.IsInvoke() {
@@ -620,12 +620,12 @@ func (fr *Frame) recv(x *ssa.UnOp, ch Val, st *State, reach string) Val {
 	if x.CommaOk {
 		// v, ok := <-ch (also `for v := range ch`): a value was received iff ok; on a closed channel nothing is counted
 		ok := c.smt.declareFresh("recvok", "Bool")
-		fr.recvAssume(st, and(reach, ok), ch.T, c.termOf(ch), v)
+		fr.recvAssume(st, reach, ch.T, c.termOf(ch), v, ok)
 		m := c.mergeStates([]incoming{{ok, st}, {not(ok), before}})
 		*st = *m
 		return Val{T: x.Type(), Tuple: []Val{v, {T: types.Typ[types.Bool], Term: ok}}}
 	}
-	fr.recvAssume(st, reach, ch.T, c.termOf(ch), v)
+	fr.recvAssume(st, reach, ch.T, c.termOf(ch), v, "true")
 	return v
 }
 
@@ -715,7 +715,7 @@ func (c *FnCtx) noteRecv(st *State, ch string, et types.Type, v Val) {
 }
 
 // recvAssume: channel message invariants (`recvsite assumes`) hold for a received value.
-func (fr *Frame) recvAssume(st *State, cond string, cht types.Type, ch string, v Val) {
+func (fr *Frame) recvAssume(st *State, cond string, cht types.Type, ch string, v Val, delivered string) {
 	if fr.contract == nil {
 		return
 	}
@@ -732,10 +732,12 @@ func (fr *Frame) recvAssume(st *State, cond string, cht types.Type, ch string, v
 			vv.Term = c.termOf(v)
 		}
 		env.names["val"] = vv
+		// delivered: a value was actually handed over (false for the zero value read from a closed channel)
+		env.names["delivered"] = Val{T: tBool, Term: delivered}
 		if env.bound == nil {
 			env.bound = map[string]bool{}
 		}
-		env.bound["ch"], env.bound["val"] = true, true
+		env.bound["ch"], env.bound["val"], env.bound["delivered"] = true, true, true
 		t, err := env.evalBool(cl.Expr)
 		if err != nil {
 			fr.bindFailure(cl, err)
@@ -766,6 +768,22 @@ func (fr *Frame) selectStmt(x *ssa.Select, st *State, reach string) Val {
 	}
 	tup := x.Type().(*types.Tuple)
 	vals := []Val{{T: types.Typ[types.Int], Term: idx}, {T: types.Typ[types.Bool], Term: c.smt.declareFresh("sel.ok", "Bool")}}
+	// recvOk is looked at only by `case v, ok := <-ch`. A select none of whose cases asks for ok treats whatever it
+	// receives as a delivered value: its channels are assumed not to be closed (listed as an assumption).
+	okUsed := false
+	if refs := x.Referrers(); refs != nil {
+		for _, r := range *refs {
+			if ex, isEx := r.(*ssa.Extract); isEx && ex.Index == 1 {
+				if er := ex.Referrers(); er != nil && len(*er) > 0 {
+					okUsed = true
+				}
+			}
+		}
+	}
+	if !okUsed {
+		c.smt.assume(vals[1].Term, "select without comma-ok: received values are delivered values (channels assumed open)")
+		c.assumedExternal["select without `, ok`: the channels it receives from are assumed not to be closed"] = true
+	}
 	k := 2
 	for i, s := range x.States {
 		ch := c.termOf(fr.val(s.Chan, st))
@@ -776,10 +794,12 @@ func (fr *Frame) selectStmt(x *ssa.Select, st *State, reach string) Val {
 			vals = append(vals, rv)
 			k++
 			// when this case is taken: one more value received on ch, and it is the last one received there
-			fr.recvAssume(st, and(reach, eq(idx, fmt.Sprint(i))), s.Chan.Type(), ch, rv)
+			// taken and a value was delivered (recvOk is false when the channel was closed: nothing is counted then)
+			took := and(eq(idx, fmt.Sprint(i)), vals[1].Term)
+			fr.recvAssume(st, and(reach, eq(idx, fmt.Sprint(i))), s.Chan.Type(), ch, rv, vals[1].Term)
 			after := st.clone()
 			c.noteRecv(after, ch, tup.At(k-1).Type(), rv)
-			m := c.mergeStates([]incoming{{eq(idx, fmt.Sprint(i)), after}, {not(eq(idx, fmt.Sprint(i))), st}})
+			m := c.mergeStates([]incoming{{took, after}, {not(took), st}})
 			*st = *m
 		} else {
 			// send case: counted when taken
